@@ -1,4 +1,5 @@
 import MontePyVerif.Lemmas.Pick
+import MontePyVerif.Lemmas.Text
 /-!
 # C05 — numbers set through the API are written without loss
 
@@ -138,9 +139,6 @@ theorem C05_format_changed (n : Node) (h : valueChanged n = true) (x : Num)
 
 /-! ## no fusion with the next word -/
 
-/-- a text that begins with a blank, a line break or a `$` comment -/
-def StartsSep (t : Text) : Prop := ∃ c r, t = c :: r ∧ (c = ' ' ∨ c = '\n' ∨ c = '$')
-
 /-- a padding whose first item separates words: blanks (at least one; a following run of blanks is not empty
     either), a line break, or a `$` comment -/
 inductive PadOK : List PadItem → Prop
@@ -198,5 +196,64 @@ theorem C05_separated (n : Node) (temp : Text) (items : List PadItem) (hp : n.pa
 
 example : PadOK [.spaces 1, .comment "$ hi".toList, .newline] :=
   PadOK.spaces 1 _ (by decide) (by intro j r h; cases h)
+
+/-! ## integers, text level -/
+
+open MontePyVerif.Spec
+
+theorem fmtD_eq (sign : Char) (width : Nat) (k : Int) : ∃ z,
+    fmtD sign width k = signText sign (decide (k < 0)) ++ (List.replicate z '0' ++ Nat.toDigits 10 k.natAbs) := by
+  refine ⟨fillZeros width (signText sign (decide (k < 0))) (pyBody ⟨decide (k < 0), k.natAbs, 0, none⟩), ?_⟩
+  unfold fmtD renderPy
+  simp [pyBody, mantissa, intDigits]
+
+/-- **C05_int** (text level): for every sign style, zero padding and integer `k`, and whatever follows (nothing, or
+    something that starts with a blank, a line break or `$`), the Spec reads the first word of what an int node
+    writes as exactly `k` -/
+theorem C05_int (sign : Char) (width : Nat) (k : Int) (tail : Text) (ht : tail = [] ∨ StartsSep tail) :
+    parseChars (firstWord (fmtD sign width k ++ tail)) = some (k : ℚ) := by
+  obtain ⟨z, hz⟩ := fmtD_eq sign width k
+  rw [hz]
+  obtain ⟨hd, hne, _⟩ := fill_digits z k.natAbs
+  have hval : (if decide (k < 0) = true then -((k.natAbs : Nat) : ℚ) else ((k.natAbs : Nat) : ℚ)) = (k : ℚ) := by
+    have := C05_int_value k
+    unfold Dec.value pow10Rat at this
+    simpa using this
+  have hdw : ∀ c ∈ List.replicate z '0' ++ Nat.toDigits 10 k.natAbs, WordChar c := fun c hc => wordChar_digit c (hd c hc)
+  -- the word that is read: the text without the blank of sign style " "
+  have key : ∀ (sg : Text) (neg : Bool),
+      (sg = [] ∧ neg = false ∨ sg = ['+'] ∧ neg = false ∨ sg = ['-'] ∧ neg = true) →
+      parseChars (firstWord ((sg ++ (List.replicate z '0' ++ Nat.toDigits 10 k.natAbs)) ++ tail))
+        = some (if neg then -((k.natAbs : Nat) : ℚ) else ((k.natAbs : Nat) : ℚ)) := by
+    intro sg neg hs
+    have hw : ∀ c ∈ sg ++ (List.replicate z '0' ++ Nat.toDigits 10 k.natAbs), WordChar c := by
+      intro c hc
+      rcases List.mem_append.mp hc with h | h
+      · rcases hs with ⟨rfl, _⟩ | ⟨rfl, _⟩ | ⟨rfl, _⟩
+        · simp at h
+        · simp at h; subst h; exact ⟨by decide, by decide, by decide, by decide⟩
+        · simp at h; subst h; exact ⟨by decide, by decide, by decide, by decide⟩
+      · exact hdw c h
+    rcases firstWord_word _ tail hw ht with h | ⟨h, _⟩
+    · rw [h]; exact parse_int_layout sg neg hs z k.natAbs
+    · exfalso
+      have : sg ++ (List.replicate z '0' ++ Nat.toDigits 10 k.natAbs) ≠ [] := by simp
+      exact this h
+  unfold signText
+  by_cases hk : k < 0
+  · simp only [hk, decide_true, if_true] at hval ⊢
+    rw [← hval]; exact key ['-'] true (Or.inr (Or.inr ⟨rfl, rfl⟩))
+  · simp only [hk, decide_false, Bool.false_eq_true, if_false] at hval ⊢
+    rw [← hval]
+    split
+    · exact key ['+'] false (Or.inr (Or.inl ⟨rfl, rfl⟩))
+    · split
+      · rw [List.append_assoc, List.singleton_append, firstWord_blank]
+        have := key [] false (Or.inl ⟨rfl, rfl⟩)
+        simpa using this
+      · exact key [] false (Or.inl ⟨rfl, rfl⟩)
+
+
+example : StartsSep " 2".toList := ⟨' ', ['2'], rfl, Or.inl rfl⟩
 
 end MontePyVerif.C05
